@@ -1,2 +1,4 @@
 #!/bin/bash
-exec /verif/bin/schedcheck.sh C11 ./checks/c11 0 "$@"
+# C11 is built with go1.26.8 and the reflect overlay so that the scheduler also
+# has points between two channel primitives of one VM instruction (DESIGN §3.2).
+VERIF_INTRA=1 exec /verif/bin/schedcheck.sh C11 ./checks/c11 0 "$@"
